@@ -139,3 +139,150 @@ Qed.
 (* ---------- (1) ---------- *)
 Lemma qr_R_upper (QR : @Mx R) tau i j : (j < i)%nat -> qr_R ROps QR tau i j = 0.
 Proof. intros H. unfold qr_R. bdestr. Qed.
+
+(* ---------- one step of qr_mut ---------- *)
+Lemma scale_loop_spec m k (A : @Mx R) nrm i j :
+  for_up (m - k) k (fun i A1 => upd A1 i k (A1 i k / nrm)) A i j =
+  if (Nat.eqb j k && ((k <=? i) && (i <? m)))%bool then A i k / nrm else A i j.
+Proof.
+  pose (P := fun (c : nat) (B1 : @Mx R) => forall i j,
+     B1 i j = if (Nat.eqb j k && ((k <=? i) && (i <? k + c)))%bool then A i k / nrm else A i j).
+  assert (HP : P (m - k)%nat (for_up (m - k) k (fun i A1 => upd A1 i k (A1 i k / nrm)) A)).
+  { apply for_up_inv.
+    - intros i0 j0. bdestr.
+    - intros c B1 Hc HB i0 j0. rewrite upd_eq, !HB. bdestr. }
+  rewrite HP. bdestr.
+Qed.
+
+Lemma house_cols_spec m n k (A2 : @Mx R) i j : (k < m)%nat ->
+  for_up (n - (k + 1)) (k + 1) (fun j A3 => house_apply ROps m k A3 j A3) A2 i j =
+  if ((k <? j) && (j <? n))%bool then refl m k A2 (fun r => A2 r j) i else A2 i j.
+Proof.
+  intros Hkm.
+  pose (P := fun (c : nat) (A3 : @Mx R) => forall i j,
+     A3 i j = if ((k <? j) && (j <? k + 1 + c))%bool then refl m k A2 (fun r => A2 r j) i else A2 i j).
+  assert (HP : P (n - (k + 1))%nat (for_up (n - (k + 1)) (k + 1) (fun j A3 => house_apply ROps m k A3 j A3) A2)).
+  { apply for_up_inv.
+    - intros i0 j0. bdestr.
+    - intros c A3 Hc HB i0 j0. rewrite house_apply_spec.
+      destruct (Nat.eqb_spec j0 (k + 1 + c)) as [->|Hne].
+      + replace ((k <? k + 1 + c) && (k + 1 + c <? k + 1 + S c))%bool with true by (symmetry; bdestr).
+        apply refl_ext; [assumption| | |].
+        * intros r Hr. rewrite HB. bdestr.
+        * intros r Hr. rewrite HB. bdestr.
+        * rewrite HB. bdestr.
+      + rewrite HB. bdestr. }
+  rewrite HP. bdestr.
+Qed.
+
+Definition refl_fact (m k : nat) (V : @Mx R) (tau : nat -> R) : Prop :=
+  ((forall i, (k <= i < m)%nat -> V i k = 0) /\ tau k = 0) \/
+  (1 <= V k k /\ rsum (m - k) (fun t => V (k + t)%nat k ^ 2) = 2 * V k k /\ tau k <> 0).
+
+Lemma house_scalar a0 T nrm : nrm <> 0 -> nrm * nrm = a0 * a0 + T -> 0 <= a0 / nrm ->
+  - ((a0 / nrm + 1) * a0 + T / nrm) / (a0 / nrm + 1) = - nrm.
+Proof.
+  intros Hn HT Hs.
+  assert (E : (a0 / nrm + 1) * a0 + T / nrm = nrm * (a0 / nrm + 1)).
+  { replace T with (nrm * nrm - a0 * a0) by lra. field. assumption. }
+  rewrite E. assert (Hd : a0 / nrm + 1 <> 0) by lra. revert Hd. generalize (a0 / nrm + 1). intros d Hd.
+  field. assumption.
+Qed.
+Lemma house_norm a0 T nrm : nrm <> 0 -> nrm * nrm = a0 * a0 + T ->
+  (a0 / nrm + 1) ^ 2 + T / (nrm * nrm) = 2 * (a0 / nrm + 1).
+Proof.
+  intros Hn HT. replace T with (nrm * nrm - a0 * a0) by lra. field. assumption.
+Qed.
+
+Lemma qr_step_spec m n k (A : @Mx R) (rd : nat -> R) : (k < m)%nat -> (k < n)%nat ->
+  forall B rd', qr_step ROps m n k (A, rd) = (B, rd') ->
+  (forall i j, (j < k \/ n <= j)%nat -> B i j = A i j) /\
+  (forall i j, (i < k \/ m <= i)%nat -> B i j = A i j) /\
+  (forall i, i <> k -> rd' i = rd i) /\
+  (forall i j, (k < j < n)%nat -> B i j = Hk m k B (fun r => A r j) i) /\
+  (forall i, Hk m k B (fun r => A r k) i =
+             if ((k <? i) && (i <? m))%bool then 0 else if Nat.eqb i k then rd' k else A i k) /\
+  refl_fact m k B rd'.
+Proof.
+  intros Hkm Hkn B rd' E. unfold qr_step in E.
+  pose proof (col_norm_nonneg m k A) as Hn0.
+  pose proof (col_norm_zero m k A ltac:(lia)) as Hz.
+  pose proof (col_norm_spec m k A ltac:(lia)) as Hs.
+  set (nrm0 := col_norm ROps m k A) in *.
+  destruct (nez ROps nrm0) eqn:En.
+  - apply nez_R in En. cbn [oadd osub omul odiv oabs oltb oeqb osqrt o0 o1 oneg ROps] in E.
+    set (nrm := if Rltb (A k k) 0 then - nrm0 else nrm0) in *.
+    pose (A2 := fun i j => if (Nat.eqb j k && ((k <=? i) && (i <? m)))%bool
+                           then A i k / nrm + (if Nat.eqb i k then 1 else 0) else A i j).
+    assert (HB : forall i j, B i j = if ((k <? j) && (j <? n))%bool
+                                     then refl m k A2 (fun r => A r j) i else A2 i j).
+    { inversion E as [[EB Erd]]. intros i j. rewrite house_cols_spec by assumption.
+      match goal with |- context [refl m k ?X _] => set (A2t := X) end.
+      assert (HA2 : forall i j, A2t i j = A2 i j).
+      { intros i0 j0. unfold A2t, A2. rewrite upd_eq, !scale_loop_spec. bdestr; ring. }
+      destruct ((k <? j) && (j <? n))%bool eqn:Ej; [|apply HA2].
+      apply andb_true_iff in Ej. destruct Ej as [Ej1 Ej2]. apply Nat.ltb_lt in Ej1.
+      apply refl_ext; [assumption| | |].
+      - intros r Hr. apply HA2.
+      - intros r Hr. rewrite HA2. unfold A2. bdestr.
+      - rewrite HA2. unfold A2. bdestr. }
+    assert (Erd : rd' = updv rd k (- nrm)) by (inversion E; reflexivity).
+    clear E.
+    assert (HBk : forall i, B i k = A2 i k) by (intros i; rewrite HB; bdestr).
+    assert (HBkk : B k k = A k k / nrm + 1) by (rewrite HBk; unfold A2; bdestr).
+    assert (Hpos : 0 < nrm0) by lra.
+    assert (Hnrm : nrm <> 0) by (unfold nrm; destruct (Rltb (A k k) 0); lra).
+    assert (Hsq : nrm * nrm = rsum (m - k) (fun t => A (k + t)%nat k * A (k + t)%nat k)).
+    { transitivity (nrm0 * nrm0); [unfold nrm; destruct (Rltb (A k k) 0); ring|].
+      rewrite Hs. apply sqrt_sqrt. apply rsum_nonneg; intros; nra. }
+    assert (Hsign : 0 <= A k k / nrm).
+    { unfold nrm. destruct (Rltb (A k k) 0) eqn:El; [apply Rltb_true in El | apply Rltb_false in El].
+      - replace (A k k / - nrm0) with ((- A k k) * / nrm0) by (field; lra).
+        apply Rmult_le_pos; [lra | left; apply Rinv_0_lt_compat; lra].
+      - unfold Rdiv. apply Rmult_le_pos; [lra | left; apply Rinv_0_lt_compat; lra]. }
+    destruct (m - k)%nat as [|p] eqn:Hp; [lia|].
+    set (T := rsum p (fun t => A (k + S t)%nat k * A (k + S t)%nat k)).
+    rewrite rsum_first, Nat.add_0_r in Hsq. fold T in Hsq.
+    assert (HBt : forall t, (t < p)%nat -> B (k + S t)%nat k = A (k + S t)%nat k / nrm).
+    { intros t Ht. rewrite HBk. unfold A2. bdestr; ring. }
+    assert (Hnz : nez ROps (B k k) = true) by (apply nez_R; lra).
+    assert (Hsig : - sig m k B (fun r => A r k) / B k k = - nrm).
+    { unfold sig. rewrite Hp, rsum_first, Nat.add_0_r, HBkk.
+      replace (rsum p (fun t => B (k + S t)%nat k * A (k + S t)%nat k)) with (T / nrm).
+      - apply house_scalar; assumption.
+      - unfold T, Rdiv. rewrite <- rsum_scal_r. apply rsum_ext. intros t Ht. rewrite HBt by assumption.
+        field. assumption. }
+    repeat split.
+    + intros i j Hj. rewrite HB. unfold A2. bdestr.
+    + intros i j Hi. rewrite HB. destruct ((k <? j) && (j <? n))%bool.
+      * rewrite refl_out by lia. reflexivity.
+      * unfold A2. bdestr.
+    + intros i Hi. rewrite Erd. apply updv_other. lia.
+    + intros i j Hj. unfold Hk. rewrite Hnz. rewrite HB.
+      replace ((k <? j) && (j <? n))%bool with true by (symmetry; bdestr).
+      apply refl_ext; [assumption| | |]; try reflexivity.
+      intros r Hr. symmetry. apply HBk.
+    + intros i. unfold Hk. rewrite Hnz.
+      destruct (le_lt_dec k i) as [H1|H1]; [destruct (le_lt_dec m i) as [H2|H2]|].
+      * rewrite refl_out by lia. bdestr.
+      * rewrite refl_in by lia. rewrite Hsig, HBk, Erd. unfold A2. bdestr.
+        -- rewrite updv_same. field. assumption.
+        -- field. assumption.
+      * rewrite refl_out by lia. bdestr.
+    + right. split; [lra|]. split.
+      * rewrite Hp, rsum_first, Nat.add_0_r, HBkk.
+        replace (rsum p (fun t => B (k + S t)%nat k ^ 2)) with (T / (nrm * nrm)).
+        -- apply house_norm; assumption.
+        -- unfold T, Rdiv. rewrite <- rsum_scal_r. apply rsum_ext. intros t Ht. rewrite HBt by assumption.
+           field. assumption.
+      * rewrite Erd, updv_same. lra.
+  - apply nez_R_false in En. cbn [oneg ROps] in E. inversion E as [[EB Erd]]. subst B. clear E.
+    pose proof (proj1 Hz En) as HA0.
+    assert (Hnz : nez ROps (A k k) = false) by (apply nez_R_false; apply HA0; lia).
+    repeat split.
+    + intros i Hi. apply updv_other. lia.
+    + intros i j Hj. unfold Hk. rewrite Hnz. reflexivity.
+    + intros i. unfold Hk. rewrite Hnz. bdestr; try (apply HA0; lia).
+      rewrite updv_same, En, HA0 by lia. lra.
+    + left. split; [exact HA0|]. rewrite updv_same, En. lra.
+Qed.
